@@ -538,6 +538,16 @@ def sym_method(it: Any, recv: Any, name: str, args: list, kwargs: dict, f: Any) 
                 cond = z3.And(t >= (1 << (b - 1)), t < (1 << b)) if b > 0 else t == 0
                 if p.entails(cond):
                     return b
+            # otherwise, for a value the path condition bounds by a machine width: bit_length = the least b with |t| < 2**b, found by
+            # forking over b (exact; at most width + 1 paths, each with a concrete result)
+            t = int_term(recv)
+            mag = z3.If(t >= 0, t, -t)
+            for width in (8, 16, 32, 64):
+                if p.entails(mag < (1 << width)):
+                    for b in range(0, width):
+                        if p.branch(mag < (1 << b), label=f"bit_length<={b}"):
+                            return b
+                    return width
             raise Unsupported("bit_length of a symbolic int whose magnitude class is not fixed by the path condition")
         raise Unsupported(f"int method {name}")
     if isinstance(recv, (SBytes, SByteArray)):
